@@ -29,7 +29,7 @@ variable {α : Type} [Add α] [Sub α] [Mul α] [Div α] [Neg α] [LT α] [LE α
 
 /-- lines 94-97 / 214-217 -/
 def leftFan (G rhoL uL PL aL : α) (tag : Nat) : Sample α :=
-  let base := tdgp1 G + gm1dgp1 G * uL / aL
+  let base := amax 0.0 (tdgp1 G + gm1dgp1 G * uL / aL)
   let rhosol := rhoL * ArithFns.pow base (tdgm1 G)
   let usol := tdgp1 G * (aL + gm1d2 G * uL)
   let Psol := PL * ArithFns.pow base (tgdgm1 G)
@@ -37,7 +37,7 @@ def leftFan (G rhoL uL PL aL : α) (tag : Nat) : Sample α :=
 
 /-- lines 139-142 / 198-201 -/
 def rightFan (G rhoR uR PR aR : α) (tag : Nat) : Sample α :=
-  let base := tdgp1 G - gm1dgp1 G * uR / aR
+  let base := amax 0.0 (tdgp1 G - gm1dgp1 G * uR / aR)
   let rhosol := rhoR * ArithFns.pow base (tdgm1 G)
   let usol := tdgp1 G * (-aR + gm1d2 G * uR)
   let Psol := PR * ArithFns.pow base (tgdgm1 G)
